@@ -3,6 +3,7 @@ Structural core decided: the ordering statement of the property ("no table byte 
 behalf of a record before its log bytes were synced; no log file is truncated/reused/deleted before
 the table changes it describes were flushed") as dominance / must-pass / confinement facts on MIR."""
 import core, lib
+from core import op_place
 from lib import *
 from props import shared
 
@@ -116,12 +117,12 @@ def run(ctx):
     # ---------------------------------------------------------------- 4. remap flushes the old mapping
     g = ctx.body('file::TableFile::grow')
     if g:
-        rep = g.call_sites('std::mem::replace')
-        fl = lib.msync_tail_sites(g, 0)
-        ctx.ob('4a remap-site', 'anchor', g.path, 'TableFile::grow replaces the mapping with mem::replace', bool(rep), '')
-        if rep:
-            lib.must_pass(ctx, '4b old-map-flushed', g, fl, 'after the mapping was replaced, every success path msyncs the whole old mapping (flush, or flush_range(0, len)) before returning Ok',
-                          sources=rep)
+        reps = lib.fam_sites(F, g.path, ['std::mem::replace'])           # in grow or in a helper extracted from it
+        reps = [(fb, x) for fb, x in reps if any('MmapMut' in str(fb.locals[op_place(a)[0]]) for a in fb.term(x)['a'] if op_place(a) is not None)]
+        ctx.ob('4a remap-site', 'anchor', g.path, 'TableFile::grow replaces the mapping with mem::replace', bool(reps), '')
+        for fb, x in reps:
+            lib.must_pass(ctx, '4b old-map-flushed', fb, lib.msync_tail_sites(fb, 0), 'after the mapping was replaced, every success path msyncs the whole old mapping (flush, or flush_range(0, len)) before returning Ok',
+                          sources=[x])
     # ---------------------------------------------------------------- 5. truncation / unlink primitives confined
     lib.callers_confined(ctx, '5a set_len-callers', F, [SET_LEN],
                          {'file::TableFile::open', 'file::TableFile::grow', 'index::IndexTable::open_existing', 'index::IndexTable::enact_plan',
